@@ -1,4 +1,4 @@
-package props
+package c03
 
 import (
 	"fmt"
@@ -10,6 +10,7 @@ import (
 	"github.com/anishathalye/porcupine"
 	"go.nanomsg.org/mangos/v3"
 
+	"verifharness/hx"
 	"verifharness/mon"
 	"verifharness/vt"
 )
@@ -22,6 +23,8 @@ type c03Spec struct {
 	NPipes int    `json:"npipes"`
 	NOps   int    `json:"nops"`
 }
+
+func TestMain(m *testing.M) { hx.Main(m) }
 
 func TestC03(t *testing.T) {
 	r := mon.NewRunner(t, "C03")
@@ -63,11 +66,11 @@ type c03Ctx struct {
 }
 
 func c03Seq(c *mon.Case, sp c03Spec) {
-	rig := newReqRig(c, "req", sp.NCtx, sp.NPipes)
+	rig := hx.NewReqRig(c, "req", sp.NCtx, sp.NPipes)
 	if c.Failed() {
 		return
 	}
-	rig.setAll(mangos.OptionRetryTime, time.Hour) // one transmission per request; resend is C04
+	rig.SetAll(mangos.OptionRetryTime, time.Hour) // one transmission per request; resend is C04
 	st := make([]*c03Ctx, sp.NCtx)
 	for i := range st {
 		st[i] = &c03Ctx{}
@@ -83,19 +86,19 @@ func c03Seq(c *mon.Case, sp c03Spec) {
 	inject := func(p int, id uint32, class string) *c03Inj {
 		serial++
 		owner := [2]int{-1, -1}
-		if o, ok := rig.byID[id]; ok {
+		if o, ok := rig.ByID[id]; ok {
 			owner = o
 		}
 		ij := &c03Inj{Serial: serial, ID: id, Class: class, Pipe: p, Owner: owner}
 		inj[serial] = ij
-		rig.pipes[p].Inject(replyWire(id, serial))
+		rig.Pipes[p].Inject(hx.ReplyWire(id, serial))
 		classes[class]++
 		arrival += class[:1]
 		note("inject pipe=%d id=%08x class=%s serial=%d", p, id, class, serial)
 		return ij
 	}
 	injectRaw := func(p int, b []byte, class string) {
-		rig.pipes[p].Inject(b)
+		rig.Pipes[p].Inject(b)
 		classes[class]++
 		arrival += class[:1]
 		note("inject pipe=%d raw=%x class=%s", p, b, class)
@@ -108,7 +111,7 @@ func c03Seq(c *mon.Case, sp c03Spec) {
 			cx.oldIDs = append(cx.oldIDs, cx.cur)
 		}
 		cx.cur, cx.correct = 0, nil
-		call := mon.Go("Send", func() (interface{}, error) { return nil, rig.ctxs[i].Send(rig.reqBody(i, cx.k)) })
+		call := mon.Go("Send", func() (interface{}, error) { return nil, rig.Ctxs[i].Send(rig.ReqBody(i, cx.k)) })
 		if !c.AwaitOrViolate("req/send-stuck", fmt.Sprintf("ctx %d Send with %d ready vt peers", i, sp.NPipes), call.Done, mon.AwaitOpts{}) {
 			return false
 		}
@@ -116,7 +119,7 @@ func c03Seq(c *mon.Case, sp c03Spec) {
 			c.Violate("req/send-error", "ctx %d Send returned %v with ready peers", i, err)
 			return false
 		}
-		txs, ok := rig.awaitTx(i, cx.k, 1, 0, "req/request-not-transmitted")
+		txs, ok := rig.AwaitTx(i, cx.k, 1, 0, "req/request-not-transmitted")
 		if !ok {
 			return false
 		}
@@ -128,10 +131,10 @@ func c03Seq(c *mon.Case, sp c03Spec) {
 	doRecv := func(i int, deadline time.Duration) bool {
 		cx := st[i]
 		if deadline > 0 {
-			rig.ctxs[i].SetOption(mangos.OptionRecvDeadline, deadline)
-			defer rig.ctxs[i].SetOption(mangos.OptionRecvDeadline, time.Duration(0))
+			rig.Ctxs[i].SetOption(mangos.OptionRecvDeadline, deadline)
+			defer rig.Ctxs[i].SetOption(mangos.OptionRecvDeadline, time.Duration(0))
 		}
-		call := mon.Go("Recv", func() (interface{}, error) { b, err := rig.ctxs[i].Recv(); return b, err })
+		call := mon.Go("Recv", func() (interface{}, error) { b, err := rig.Ctxs[i].Recv(); return b, err })
 		if !c.AwaitOrViolate("req/recv-stuck", fmt.Sprintf("ctx %d Recv (cur=%08x correct=%v deadline=%v)", i, cx.cur, cx.correct, deadline), call.Done, mon.AwaitOpts{MaxTimer: deadline}) {
 			return false
 		}
@@ -140,7 +143,7 @@ func c03Seq(c *mon.Case, sp c03Spec) {
 		c.Count("recv_calls", 1)
 		if err == nil {
 			b := v.([]byte)
-			s, ok := parseReplySerial(b)
+			s, ok := hx.ParseReplySerial(b)
 			ij := inj[s]
 			if !ok || ij == nil {
 				c.Violate("req/delivered-uninjected", "ctx %d Recv returned %q which the harness never injected", i, b)
@@ -215,7 +218,7 @@ func c03Seq(c *mon.Case, sp c03Spec) {
 		switch x := c.Rand.Intn(100); {
 		case cx.closed:
 			// every call on a closed context fails with ErrClosed
-			if err := rig.ctxs[i].Send([]byte("x")); err != mangos.ErrClosed {
+			if err := rig.Ctxs[i].Send([]byte("x")); err != mangos.ErrClosed {
 				c.Violate("req/closed-ctx-send-error", "ctx %d (closed) Send returned %v", i, err)
 			}
 			doRecv(i, 0)
@@ -255,7 +258,7 @@ func c03Seq(c *mon.Case, sp c03Spec) {
 					}
 				case 6:
 					if cx.cur != 0 {
-						injectRaw(bp, be32(cx.cur)[:3], "truncated-id")
+						injectRaw(bp, hx.Be32(cx.cur)[:3], "truncated-id")
 					}
 				}
 			}
@@ -267,7 +270,7 @@ func c03Seq(c *mon.Case, sp c03Spec) {
 					cx.correct = append(cx.correct, ij2.Serial)
 				}
 			}
-			if !rig.drained(rig.pipes...) {
+			if !rig.Drained(rig.Pipes...) {
 				break
 			}
 			if cx.cur != 0 && len(cx.correct) == 0 {
@@ -278,7 +281,7 @@ func c03Seq(c *mon.Case, sp c03Spec) {
 		case x < 75:
 			doRecv(i, time.Duration(0)+time.Duration(boolInt(cx.cur != 0 && len(cx.correct) == 0))*15*time.Millisecond)
 		case x < 80 && i != 0:
-			err := rig.ctxs[i].Close()
+			err := rig.Ctxs[i].Close()
 			note("close ctx=%d err=%v", i, err)
 			if err != nil {
 				c.Violate("req/ctx-close-error", "ctx %d Close returned %v", i, err)
@@ -291,12 +294,12 @@ func c03Seq(c *mon.Case, sp c03Spec) {
 			// late/duplicate reply for an already answered request, then a sentinel round
 			if len(cx.oldIDs) > 0 {
 				inject(p, cx.oldIDs[len(cx.oldIDs)-1], "late-duplicate")
-				rig.drained(rig.pipes[p])
+				rig.Drained(rig.Pipes[p])
 			}
 		}
 	}
-	rig.scan()
-	for _, b := range rig.bad {
+	rig.Scan()
+	for _, b := range rig.Bad {
 		c.Violate("req/malformed-transmission", "%s", b)
 	}
 	c.Count("ops", len(trace))
@@ -354,14 +357,14 @@ var c03Model = porcupine.Model{
 }
 
 func c03Conc(c *mon.Case, sp c03Spec) {
-	rig := newReqRig(c, "req", sp.NCtx, sp.NPipes)
+	rig := hx.NewReqRig(c, "req", sp.NCtx, sp.NPipes)
 	if c.Failed() {
 		return
 	}
-	rig.setAll(mangos.OptionRetryTime, time.Hour)
-	rig.setAll(mangos.OptionRecvDeadline, 30*time.Millisecond)
-	setYields(c.Rand.Int63(), &yieldCfg{probGosched: 0.2, probSleep: 0.1, maxSleep: 300 * time.Microsecond})
-	defer setYields(0, nil)
+	rig.SetAll(mangos.OptionRetryTime, time.Hour)
+	rig.SetAll(mangos.OptionRecvDeadline, 30*time.Millisecond)
+	hx.SetYields(c.Rand.Int63(), &hx.YieldCfg{ProbGosched: 0.2, ProbSleep: 0.1, MaxSleep: 300 * time.Microsecond})
+	defer hx.SetYields(0, nil)
 
 	var mu sync.Mutex
 	ops := make([][]porcupine.Operation, sp.NCtx)
@@ -375,15 +378,15 @@ func c03Conc(c *mon.Case, sp c03Spec) {
 	wg.Add(1)
 	go func() {
 		defer wg.Done()
-		rnd := newRand(seed)
-		var seen []wireTx
+		rnd := hx.NewRand(seed)
+		var seen []hx.WireTx
 		for {
 			select {
 			case <-stop:
 				return
 			default:
 			}
-			fresh := rig.scan()
+			fresh := rig.Scan()
 			for _, tx := range fresh {
 				seen = append(seen, tx)
 				n := 1
@@ -406,7 +409,7 @@ func c03Conc(c *mon.Case, sp c03Spec) {
 					if rnd.Intn(3) == 0 {
 						mon.Sleep(time.Duration(rnd.Intn(400)) * time.Microsecond)
 					}
-					rig.pipes[p].Inject(replyWire(tx.ID, s))
+					rig.Pipes[p].Inject(hx.ReplyWire(tx.ID, s))
 					c.Count("injected_correct", 1)
 				}
 				if rnd.Intn(2) == 0 && len(seen) > 1 {
@@ -416,11 +419,10 @@ func c03Conc(c *mon.Case, sp c03Spec) {
 					s := serial
 					injBy[s] = old.ID
 					mu.Unlock()
-					rig.pipes[rnd.Intn(sp.NPipes)].Inject(replyWire(old.ID, s))
+					rig.Pipes[rnd.Intn(sp.NPipes)].Inject(hx.ReplyWire(old.ID, s))
 					c.Count("injected_stale", 1)
 				}
 			}
-			mon.Sleep(50 * time.Microsecond)
 		}
 	}()
 
@@ -446,10 +448,10 @@ func c03Conc(c *mon.Case, sp c03Spec) {
 		senders.Add(1)
 		go func() {
 			defer senders.Done()
-			rnd := newRand(seed + int64(i)*31)
+			rnd := hx.NewRand(seed + int64(i)*31)
 			for k := 1; k <= sp.NOps; k++ {
 				t0 := mon.Now()
-				err := rig.ctxs[i].Send(rig.reqBody(i, k))
+				err := rig.Ctxs[i].Send(rig.ReqBody(i, k))
 				t1 := mon.Now()
 				mu.Lock()
 				ops[i] = append(ops[i], porcupine.Operation{ClientId: 0, Input: c03In{"send", k}, Call: int64(t0), Output: c03Out{Err: errName(err)}, Return: int64(t1)})
@@ -467,18 +469,18 @@ func c03Conc(c *mon.Case, sp c03Spec) {
 				default:
 				}
 				t0 := mon.Now()
-				b, err := rig.ctxs[i].Recv()
+				b, err := rig.Ctxs[i].Recv()
 				t1 := mon.Now()
 				out := c03Out{Err: errName(err), K: -1}
 				if err == nil {
-					if s, ok := parseReplySerial(b); ok {
+					if s, ok := hx.ParseReplySerial(b); ok {
 						mu.Lock()
 						id, known := injBy[s]
 						mu.Unlock()
 						if known {
-							rig.mu.Lock()
-							o, ok2 := rig.byID[id]
-							rig.mu.Unlock()
+							rig.Mu.Lock()
+							o, ok2 := rig.ByID[id]
+							rig.Mu.Unlock()
 							if ok2 && o[0] == i {
 								out.K = o[1]
 							} else {
@@ -500,11 +502,13 @@ func c03Conc(c *mon.Case, sp c03Spec) {
 	if !c.AwaitOrViolate("req/concurrent-send-stuck", "concurrent senders finishing", sd.Done, mon.AwaitOpts{MaxTimer: 30 * time.Millisecond}) {
 		close(recvDone)
 		close(stop)
+		vt.Kick()
 		return
 	}
 	mon.Sleep(40 * time.Millisecond) // let the last replies be consumed or time out (pacing only)
 	close(recvDone)
 	close(stop)
+	vt.Kick()
 	wd := mon.Go("receivers", func() (interface{}, error) { wg.Wait(); return nil, nil })
 	if !c.AwaitOrViolate("req/concurrent-recv-stuck", "receivers with 30ms deadline returning", wd.Done, mon.AwaitOpts{MaxTimer: 30 * time.Millisecond}) {
 		return
